@@ -10,8 +10,22 @@
 // arithmetic meaning is proved in unit known_word against the EVM definition.
 use vstd::prelude::*;
 use std::sync::Arc;
+//@include common/ethnum_prelude.rs
 //@include common/value_tree_items.rs
+// Robustness shim (no contract): lets an edited arm that consults the numeric value of a word (`value_le`,
+// `zero`, `from_le`, ethnum comparisons) TYPE-CHECK, so that the edit reaches the arm's postcondition instead
+// of ending as a rustc-stage "undecided".  Nothing is assumed about these functions.
+impl KnownWord {
+    pub fn value_le(&self) -> ethnum::U256 { unimplemented!() }
+    pub fn value_le_signed(&self) -> ethnum::I256 { unimplemented!() }
+    pub fn zero() -> KnownWord { unimplemented!() }
+    pub fn from_le(_v: ethnum::U256) -> KnownWord { unimplemented!() }
+}
 verus! {
+pub assume_specification[ KnownWord::value_le ](k: &KnownWord) -> (r: ethnum::U256);
+pub assume_specification[ KnownWord::value_le_signed ](k: &KnownWord) -> (r: ethnum::I256);
+pub assume_specification[ KnownWord::zero ]() -> (r: KnownWord);
+pub assume_specification[ KnownWord::from_le ](v: ethnum::U256) -> (r: KnownWord);
 
 // A-CALLEE: the traversal combinator `SymbolicValue::transform_data(constant_folder)` applied to an
 // operand is an uninterpreted function `tx` of that operand (determinism only; that it folds every
